@@ -929,6 +929,12 @@ fn adaptive_ops(ctx: &mut Ctx, rng: &mut Rng, ring: &HashRing, members: &[u64], 
         }
     }
     ctx.out.op(l, format!("a {}", a.join("|")));
+    // clear(): every key is back at base_rf
+    let n_hot = mgr.hot_key_count();
+    mgr.clear();
+    if n_hot != overrides.len() || mgr.hot_key_count() != 0 || keys.iter().any(|k| mgr.get_rf_for_key(k) != base) {
+        ctx.out.violation("C19:adaptive:clear-leaves-overrides", "after clear() a key still has an RF override (or hot_key_count disagrees with the override table)", json!({"base_rf": base, "hot_key_rf": hot}));
+    }
 }
 
 /// GossipState as a state machine: heartbeats, epochs, queue_deltas / queue_deltas_broadcast,
@@ -1015,6 +1021,8 @@ fn gossip_state_session(ctx: &mut Ctx, rng: &mut Rng, ring: &HashRing, members: 
                 }
             }
         }
+        let n_adv: u64 = script.iter().map(|s| if let Step::Adv(n) = s { *n } else { 0 }).sum();
+        answers_direct.push(format!("epoch {}", gs.epoch == n_adv));
         ctx.out.count("gossip-state:session:direct");
     }
     // ---- the same script through the GossipActor
@@ -1034,6 +1042,8 @@ fn gossip_state_session(ctx: &mut Ctx, rng: &mut Rng, ring: &HashRing, members: 
                     Step::Drain => { let q = h.drain_outbound().await; res.push(show(&q, me).0); }
                 }
             }
+            let n_adv: u64 = script.iter().map(|s| if let Step::Adv(n) = s { *n } else { 0 }).sum();
+            res.push(format!("epoch {}", h.get_epoch().await == n_adv));
             h.shutdown().await;
             res
         });
@@ -1261,8 +1271,108 @@ pub fn run(a: &Args) {
     ctx.op_sip(&mut wr, 40);
     witness_from_config(&mut ctx, &mut wr);
     gossip_loop_interval_probe(&mut ctx);
+    config_shapes(&mut ctx);
+    crate::srcscan::report(&mut ctx.out, "C19", "api_coverage(scanned from the source of the dependency)",
+        &["src/replication/hash_ring.rs", "src/replication/gossip_router.rs", "src/replication/gossip.rs", "src/production/gossip_actor.rs",
+          "src/production/gossip_manager.rs", "src/production/adaptive_replication.rs", "src/replication/config.rs"], &coverage);
     for i in 0..a.n {
         scenario(&mut ctx, &mut rng, thorough, i);
     }
     ctx.out.finish("case = one membership scenario (node ids, virtual nodes per node, replication factor, 12-28 keys) driven through: every / sampled join order of HashRing::new, get_replicas / get_replicas_with_rf / get_gossip_targets for all keys, 2-5 add_node / remove_node steps, a GossipRouter::new address book and a GossipRouter::from_config router with route_deltas and GossipState::queue_deltas; distinct by (nodes, vnodes, rf, keys); non-trivial iff >= 2 nodes, vnodes >= 1, rf >= 1 and the keys do not all share one replica list");
+}
+
+/// GossipRouter::from_config over every configuration SHAPE the public builders of
+/// ReplicationConfig produce (RCFG carries the fields from_config reads)
+fn config_shapes(ctx: &mut Ctx) {
+    let peers = |n: usize| -> Vec<String> { (0..n).map(|i| format!("peer{}", i)).collect() };
+    let shapes: Vec<(&str, ReplicationConfig)> = vec![
+        ("new_single_node", ReplicationConfig::new_single_node()),
+        ("default", ReplicationConfig::default()),
+        ("new_cluster(2, 3 peers)", ReplicationConfig::new_cluster(2, peers(3))),
+        ("new_cluster.with_partitioned_mode", ReplicationConfig::new_cluster(1, peers(2)).with_partitioned_mode()),
+        ("new_cluster.with_partitioned_mode.with_replication_factor(1)", ReplicationConfig::new_cluster(3, peers(2)).with_partitioned_mode().with_replication_factor(1)),
+        ("new_partitioned_cluster(4, 4 peers, rf 2)", ReplicationConfig::new_partitioned_cluster(4, peers(4), 2)),
+        ("new_partitioned_cluster.with_causal_consistency.with_virtual_nodes(7)", ReplicationConfig::new_partitioned_cluster(1, peers(1), 3).with_causal_consistency().with_virtual_nodes(7)),
+        ("new_partitioned_cluster, enabled = false", { let mut c = ReplicationConfig::new_partitioned_cluster(2, peers(2), 3); c.enabled = false; c }),
+        ("new_partitioned_cluster, no peers", ReplicationConfig::new_partitioned_cluster(1, vec![], 3)),
+        ("new_partitioned_cluster, replica_id = u64::MAX", ReplicationConfig::new_partitioned_cluster(u64::MAX, peers(2), 3)),
+    ];
+    for (name, cfg) in shapes {
+        let ring = HashRing::new((1..=cfg.cluster_size() as u64).map(ReplicaId::new).collect(), cfg.virtual_nodes_per_physical.min(MAX_VNODES), cfg.replication_factor);
+        let rt = GossipRouter::from_config(&cfg, Arc::new(RwLock::new(ring)));
+        let mut a = format!("peers self={} sel={}", rt.my_replica().0, rt.is_selective() as u8);
+        for (id, addr) in &peers_of(&rt) {
+            a.push_str(&format!(" {}:{}", id, addr));
+        }
+        ctx.out.op(format!("RCFG {} {} {} {} {}", cfg.replica_id, cfg.peers.len(), cfg.selective_gossip as u8, cfg.partitioned_mode as u8, cfg.enabled as u8), a);
+        ctx.out.count("from_config:builder-shape");
+        let want_sel = cfg.selective_gossip && cfg.partitioned_mode && cfg.enabled;
+        if rt.is_selective() != want_sel || cfg.uses_selective_gossip() != want_sel || cfg.is_partitioned() != (cfg.partitioned_mode && cfg.enabled) || rt.my_replica().0 != cfg.replica_id {
+            ctx.out.violation("C19:from_config:selective-mode", &format!("configuration shape `{}`: the router's mode / identity does not follow the configuration", name),
+                json!({"shape": name, "selective_gossip": cfg.selective_gossip, "partitioned_mode": cfg.partitioned_mode, "enabled": cfg.enabled, "is_selective": rt.is_selective()}));
+        }
+        let seq = cfg.replica_id >= 1 && cfg.replica_id as usize <= cfg.peers.len() + 1;
+        let want: BTreeSet<u64> = (1..=cfg.peers.len() as u64 + 1).filter(|i| *i != cfg.replica_id).collect();
+        if seq && peers_of(&rt).keys().cloned().collect::<BTreeSet<u64>>() != want {
+            ctx.out.violation("C19:from_config:peer-ids", &format!("configuration shape `{}`: from_config does not register exactly the other members", name), json!({"shape": name, "registered": peers_of(&rt)}));
+        }
+    }
+}
+
+/// every public item of the anchored files (scanned from the source this binary was built against)
+/// and how this harness accounts for it
+fn coverage(file: &str, item: &str) -> Option<&'static str> {
+    let f = file.rsplit('/').next().unwrap_or(file);
+    Some(match (f, item) {
+        // ---- hash_ring.rs
+        ("hash_ring.rs", "VirtualNode.physical_node" | "VirtualNode.virtual_index" | "VirtualNode::new") => "driven: every ring; compared through hook H2 (ring checksum over position / node / index), positions recomputed by the model (V lines)",
+        ("hash_ring.rs", "HashRing::new" | "HashRing::add_node" | "HashRing::remove_node") => "driven: NEW / ADD / REM (all / sampled join orders, members / non-members, emptied-then-refilled)",
+        ("hash_ring.rs", "HashRing::with_defaults") => "driven: NEWD",
+        ("hash_ring.rs", "HashRing::verif_ring_positions" | "HashRing::verif_key_position") => "hook H2: the observation itself (V / KP / ring checksum)",
+        ("hash_ring.rs", "HashRing::get_replicas" | "HashRing::get_replicas_with_rf") => "driven: K (default rf, explicit rf 0..8, rf from AdaptiveReplicationManager)",
+        ("hash_ring.rs", "HashRing::is_responsible_with_rf" | "HashRing::is_responsible" | "HashRing::get_primary" | "HashRing::contains_node") => "driven: OBS",
+        ("hash_ring.rs", "HashRing::get_gossip_targets") => "driven: T",
+        ("hash_ring.rs", "HashRing::version" | "HashRing::node_count" | "HashRing::nodes" | "HashRing::replication_factor") => "driven: every ring summary (ver= / n= / phys / rf=)",
+        ("hash_ring.rs", "HashRing::get_distribution_stats" | "DistributionStats.total_assignments" | "DistributionStats.min_per_node" | "DistributionStats.max_per_node") => "driven: STATS",
+        ("hash_ring.rs", "DistributionStats.mean_per_node" | "DistributionStats.std_dev") => "NOT compared: floats (derived from the compared counters; no placement decision reads them)",
+        // ---- gossip_router.rs
+        ("gossip_router.rs", "GossipRouter::new") => "driven: RNEW (covering / missing / self / stranger address books)",
+        ("gossip_router.rs", "GossipRouter::from_config") => "driven: RCFG (replica_id 0..n+2, peers n-2..n, selective_gossip / partitioned_mode / enabled, every builder shape)",
+        ("gossip_router.rs", "GossipRouter::route_deltas") => "driven: ROUTE (also after a membership change through the shared ring)",
+        ("gossip_router.rs", "GossipRouter::route_with_stats" | "RoutingStats.total_deltas" | "RoutingStats.total_assignments" | "RoutingStats.assignments_saved" | "RoutingStats.unique_targets") => "driven: ROUTES",
+        ("gossip_router.rs", "GossipRouter::calculate_reduction_ratio") => "driven: RATIO (the two counters; the ratio is a float)",
+        ("gossip_router.rs", "GossipRouter::get_peer_address" | "GossipRouter::peer_ids" | "GossipRouter::is_selective" | "GossipRouter::my_replica") => "driven: every `peers` answer line",
+        ("gossip_router.rs", "GossipRouter::update_peer" | "GossipRouter::remove_peer") => "driven: RUPD / RREM",
+        // ---- gossip.rs
+        ("gossip.rs", "const MAX_OUTBOUND_QUEUE") => "driven: QUEUE with 9 999 / 10 000 / 10 003 heartbeats queued first",
+        ("gossip.rs", "GossipMessage::DeltaBatch" | "GossipMessage::TargetedDelta" | "GossipMessage::Heartbeat" | "GossipMessage::new_delta_batch" | "GossipMessage::new_targeted_delta" | "GossipMessage::new_heartbeat") => "driven: QUEUE / GDRAIN / LOOP (kind, target, source, epoch, deltas compared)",
+        ("gossip.rs", "GossipMessage::SyncRequest" | "GossipMessage::SyncResponse") => "NOT driven: constructed by nothing in src/ (only matched on receipt); no routing decision involves them",
+        ("gossip.rs", "GossipMessage::source_replica" | "GossipMessage::into_deltas" | "GossipMessage::is_delta_message") => "accessors of a received message: not part of routing (C14 covers the codec)",
+        ("gossip.rs", "GossipMessage::serialize" | "GossipMessage::deserialize") => "driven: LOOP (the real loops serialise, the listeners deserialise); the codec itself is C14's subject",
+        ("gossip.rs", "fn create_gossip_channel") => "NOT driven: a tokio channel constructor",
+        ("gossip.rs", "RoutedMessage.target" | "RoutedMessage.message" | "RoutedMessage::broadcast" | "RoutedMessage::targeted") => "driven: every queued message (target vs message kind checked: envelope)",
+        ("gossip.rs", "GossipState.replica_id" | "GossipState.epoch" | "GossipState.config" | "GossipState.outbound_queue") => "driven: G* session (source replica and epoch of every message compared)",
+        ("gossip.rs", "GossipState::verify_invariants") => "NOT driven: debug-assertion helper (a no-op in the release profile the harness builds)",
+        ("gossip.rs", "GossipState::new" | "GossipState::with_router" | "GossipState::set_router" | "GossipState::advance_epoch" | "GossipState::queue_deltas" | "GossipState::queue_deltas_broadcast" | "GossipState::queue_heartbeat" | "GossipState::drain_outbound" | "GossipState::is_selective") => "driven: GNEW / GSET / GADV / GQ / GQB / GHB / GDRAIN / GSEL, QUEUE",
+        ("gossip.rs", "GossipState::router") => "accessor",
+        // ---- gossip_actor.rs
+        ("gossip_actor.rs", "GossipMessage::QueueDeltas" | "GossipMessage::QueueDeltasBroadcast" | "GossipMessage::QueueHeartbeat" | "GossipMessage::AdvanceEpoch" | "GossipMessage::DrainOutbound" | "GossipMessage::SetRouter" | "GossipMessage::IsSelective" | "GossipMessage::GetEpoch" | "GossipMessage::Shutdown") => "driven: the G* script replayed through the GossipActorHandle (one actor message kind per handle fn)",
+        ("gossip_actor.rs", "GossipActorHandle::new" | "GossipActorHandle::queue_deltas" | "GossipActorHandle::queue_deltas_broadcast" | "GossipActorHandle::queue_heartbeat" | "GossipActorHandle::advance_epoch" | "GossipActorHandle::drain_outbound" | "GossipActorHandle::set_router" | "GossipActorHandle::is_selective" | "GossipActorHandle::get_epoch" | "GossipActorHandle::shutdown" | "GossipActor::spawn" | "GossipActor::spawn_with_router") => "driven: the G* script through the actor (answers must equal the direct GossipState's), LOOP kind `actor`",
+        // ---- gossip_manager.rs
+        ("gossip_manager.rs", "GossipManager::start_gossip_loop" | "GossipManager::start_gossip_loop_with_actor") => "driven: LOOP over loopback TCP (what each configured peer receives), LOOPI (gossip_interval_ms 0 / 1 / max)",
+        ("gossip_manager.rs", "GossipManager::start_server") => "NOT driven: binds the fixed port 3001 + replica_id on 0.0.0.0 (cannot run next to other checks); the receiving side takes no routing decision",
+        ("gossip_manager.rs", "GossipManager::new" | "GossipManager::get_delta_sender" | "GossipManager::queue_outbound") => "NOT driven: channel plumbing with no reader in src/ (the struct is #[allow(dead_code)])",
+        ("gossip_manager.rs", "PeerState.replica_id" | "PeerState.address" | "PeerState.last_seen_epoch" | "PeerState.connected" | "PeerState::new") => "NOT driven: #[allow(dead_code)] record with no user in src/",
+        // ---- adaptive_replication.rs
+        ("adaptive_replication.rs", "AdaptiveConfig.base_rf" | "AdaptiveConfig.hot_key_rf" | "AdaptiveConfig.recalc_interval_ms" | "AdaptiveConfig.hotkey_config" | "AdaptiveConfig::high_throughput" | "AdaptiveConfig::low_latency") => "driven: ARF (default / both presets / random base_rf 0..4, hot_key_rf 0..7 incl. hot < base; recalc interval 1 and u64::MAX)",
+        ("adaptive_replication.rs", "AdaptiveReplicationManager::new" | "AdaptiveReplicationManager::observe" | "AdaptiveReplicationManager::get_rf_for_key" | "AdaptiveReplicationManager::recalculate" | "AdaptiveReplicationManager::force_recalculate" | "AdaptiveReplicationManager::get_hot_key_updates" | "AdaptiveReplicationManager::clear" | "AdaptiveReplicationManager::hot_key_count") => "driven: ARF (the rf of every key and the replica list for that rf; the hot SET is the implementation's — the float-based detector is not modelled), promotion / clear oracle",
+        ("adaptive_replication.rs", "AdaptiveReplicationManager::is_hot" | "AdaptiveReplicationManager::get_top_hot_keys" | "AdaptiveReplicationManager::stats" | "AdaptiveReplicationManager::verify_invariants" | "AdaptiveStats.current_hot_keys" | "AdaptiveStats.total_promotions" | "AdaptiveStats.total_demotions" | "AdaptiveStats.tracked_keys" | "AdaptiveStats.base_rf" | "AdaptiveStats.hot_rf") => "NOT part of C19: float access rates and counters that no placement decision reads",
+        // ---- config.rs
+        ("config.rs", "ConsistencyLevel::Eventual" | "ConsistencyLevel::Causal" | "ReplicationConfig.consistency_level" | "ReplicationConfig::with_causal_consistency") => "not read by placement / routing (C06's subject); both values occur in the builder shapes",
+        ("config.rs", "ReplicationConfig.enabled" | "ReplicationConfig.replica_id" | "ReplicationConfig.peers" | "ReplicationConfig.partitioned_mode" | "ReplicationConfig.selective_gossip") => "driven: RCFG / LOOP (generated: replica_id 0..n+2 and u64::MAX, 0..n peers, all eight flag combinations)",
+        ("config.rs", "ReplicationConfig.gossip_interval_ms" | "ReplicationConfig::gossip_interval") => "driven: LOOPI (0 / 1 / u64::MAX), LOOP (1 ms)",
+        ("config.rs", "ReplicationConfig.replication_factor" | "ReplicationConfig.virtual_nodes_per_physical" | "ReplicationConfig::with_replication_factor" | "ReplicationConfig::with_virtual_nodes") => "no code in src/ builds a HashRing from these two fields (rings are built by callers with explicit arguments); the ring's own rf 0..7 / vnodes 0..200 are generated; the builder shapes feed them into HashRing::new",
+        ("config.rs", "ReplicationConfig::new_single_node" | "ReplicationConfig::new_cluster" | "ReplicationConfig::new_partitioned_cluster" | "ReplicationConfig::with_partitioned_mode" | "ReplicationConfig::is_partitioned" | "ReplicationConfig::uses_selective_gossip" | "ReplicationConfig::cluster_size") => "driven: builder shapes through GossipRouter::from_config (RCFG)",
+        _ => return None,
+    })
 }
